@@ -1613,6 +1613,13 @@ class ModelBuilder:
                                 delta = timedelta(minutes=num)
                             elif unit == "d":
                                 delta = timedelta(days=num)
+                            elif unit == "w":
+                                delta = timedelta(weeks=num)
+                            elif unit == "m":
+                                # calendar months and years as for gapduration: 30 and 365 days
+                                delta = timedelta(days=30 * num)
+                            elif unit == "y":
+                                delta = timedelta(days=365 * num)
                             else:
                                 delta = timedelta(hours=num)
                         else:
